@@ -132,9 +132,14 @@ def build():
        note="printf abstracted to an event counter; hex loop closed by its loop invariant and decreases clause")
 
     J.append(Job("E1/binson_parser_to_string/verify-summarised", "E3", "contracts/h_tostring.c", "h_binson_parser_to_string",
-                 {"C13": "*", "C18": "*"}, defs=["BINSON_PARSER_WITH_PRINT"], cc_args=["-I/verif/stubs/shim_tostring"],
+                 {"C13": "*", "C18": "*", "C12": ["callback-removed", "callback-installed", "ctx-*"]}, defs=["BINSON_PARSER_WITH_PRINT"], cc_args=["-I/verif/stubs/shim_tostring"],
                  cbmc_args=[], timeout=900, mem_gb=4,
                  note="real binson_parser_to_string, loop-free; binson_parser_verify-in-print-mode replaced by a summary that asserts the callback precondition and abstracts the callbacks by their proved contract (assumption: induction over tokens); COMPLETE under that summary"))
+
+    J.append(Job("E1/binson_parser_print/verify-summarised", "E3", "contracts/h_tostring.c", "h_binson_parser_print",
+                 {"C12": "*", "C18": "*", "C01": "*"}, defs=["BINSON_PARSER_WITH_PRINT"], cc_args=["-I/verif/stubs/shim_tostring"],
+                 cbmc_args=[], timeout=900, mem_gb=4,
+                 note="real binson_parser_print, loop-free; binson_parser_verify-in-print-mode replaced by a summary that asserts the callback precondition (callback installed, live zeroed one-byte state) and abstracts the callbacks by their proved frame; the wrapper leaves no callback/context behind on any path; COMPLETE under that summary"))
 
     # ---- step contracts of _advance_parsing (complete: the loop runs a statically known 1-2 iterations)
     STEP = {1: ("array-nesting-limit", {"C02": "*", "C01": "*"}), 2: ("object-nesting-limit", {"C02": "*", "C01": "*", "C06": "*"}),
